@@ -196,6 +196,96 @@ def specRun (e : Elem) : Nat → List Op → List Resp
   | ver, .clear :: ops => .done :: specRun e ver ops
   | ver, .set :: ops => .done :: specRun e (ver + 1) ops
 
+/-! ### Parameter values behind the version counter
+
+`St.ver` counts the public setters called; what an instance is *built from* is the value the parameter had at the
+version at which the instance was created.  A value, as the caller holds it, is an object (identity), its content at
+the time of the call, and its kind (constant / function of the grid / of the wavelength / of both: what `callable()`,
+`evaluate_parameter` and the elements' own `__init__` look at).  The setters in /repo store whatever they are given and
+always call `clear_cache()`: neither the identity of the object nor the kind of the previous value matters
+(driver ops `pnew` / `pset` / `preq`). -/
+
+structure PVal where
+  /-- identity of the object handed to the constructor / setter -/
+  obj : Nat
+  /-- its content at the time of the call -/
+  content : Nat
+  /-- 0 constant, 1 function of the grid, 2 of the wavelength, 3 of both -/
+  kind : Nat
+deriving DecidableEq, Repr, Inhabited
+
+structure PSt where
+  st : St
+  /-- the values of all parameter versions, newest first: version `v` stands for `vals[vals.length - 1 - v]` -/
+  vals : List PVal
+deriving Repr
+
+/-- An element constructed with value `v`. -/
+def PSt.init (v : PVal) : PSt := ⟨St.init 0, [v]⟩
+
+/-- The value the element holds now. -/
+def PSt.stored (p : PSt) : PVal := p.vals.headD default
+
+/-- The value an instance created at parameter version `ver` was built from. -/
+def builtFrom (vals : List PVal) (ver : Nat) : PVal := vals.getD (vals.length - 1 - ver) default
+
+inductive POp
+  | req (i o : Option GridId) (w : Option WlKey)
+  | clear
+  | set (v : PVal)
+deriving DecidableEq, Repr
+
+inductive PResp
+  /-- the request was answered by an instance for `key` built from value `v` -/
+  | built (key : Key) (v : PVal)
+  | error (err : Err)
+  | done
+deriving DecidableEq, Repr
+
+def POp.toOp : POp → Op
+  | .req i o w => .req i o w
+  | .clear => .clear
+  | .set _ => .set
+
+def PResp.ofResp (val : Nat → PVal) : Resp → PResp
+  | .inst k ver => .built k (val ver)
+  | .error err => .error err
+  | .done => .done
+
+/-- One step of an element that has a parameter: the cache step, and the setter stores the value it is given. -/
+def pstep (e : Elem) (p : PSt) (op : POp) : PSt × PResp :=
+  let r := step e p.st op.toOp
+  let vals := match op with
+    | .set v => v :: p.vals
+    | _ => p.vals
+  (⟨r.1, vals⟩, PResp.ofResp (builtFrom vals) r.2)
+
+def prun (e : Elem) : PSt → List POp → List PResp
+  | _, [] => []
+  | p, op :: ops => (pstep e p op).2 :: prun e (pstep e p op).1 ops
+
+/-- The specification: every request is answered by a freshly constructed element that was given the value the
+shared element holds now (content and kind as they are now, whatever object carries them). -/
+def pspec (e : Elem) : PVal → Nat → List POp → List PResp
+  | _, _, [] => []
+  | cur, ver, .req i o w :: ops =>
+    PResp.ofResp (fun _ => cur) (step e (St.init ver) (.req i o w)).2 :: pspec e cur ver ops
+  | cur, ver, .clear :: ops => .done :: pspec e cur ver ops
+  | _, ver, .set v :: ops => .done :: pspec e v (ver + 1) ops
+
+/-- The setter: stores the value and calls `clear_cache()` (`pstep` on `.set v`, state part). -/
+def PSt.set' (p : PSt) (v : PVal) : PSt := ⟨p.st.setParam, v :: p.vals⟩
+
+/-- Mutant (seeded regression C08-11 and its class): a setter that returns early -- no `clear_cache()` -- when it is
+handed the object it already holds; the caller has edited that object in place. -/
+def Mutant.psetSkipSameObject (p : PSt) (v : PVal) : PSt :=
+  if v.obj = p.stored.obj then ⟨p.st, v :: p.vals.tail⟩ else ⟨p.st.setParam, v :: p.vals⟩
+
+/-- Mutant (seeded regression C09-10 and its class): the kind of the value is decided once, at construction; instances
+are built from the current content treated as the kind the *first* value had. -/
+def Mutant.builtFromKindAtInit (vals : List PVal) (ver : Nat) : PVal :=
+  { builtFrom vals ver with kind := (builtFrom vals 0).kind }
+
 /-! ### Grids: coordinates *and* weights
 
 `Grid.__eq__` / `Grid.__hash__` look at the coordinates only (C10), but what `make_instance` builds
